@@ -33,10 +33,13 @@ for v in ('A', 'B', 'C', 'D'):
             if any(b.get('case') for b in f.blocks.values()):
                 pr['F'] = generic.fallthrough_profile(f)
                 pr['P'] = generic.case_partition(f)
+            cv = generic.callee_profile(f)
             ct = generic.condition_tables(f)
             if ct:
                 pr['T'] = ct
-            if pr['R'] or pr['O'] or 'F' in pr or ct:
+            if cv:
+                pr['V'] = cv
+            if pr['R'] or pr['O'] or 'F' in pr or ct or cv:
                 prof.setdefault(v, {}).setdefault(f.file, {})[f.name] = pr
             ab = generic.argument_bindings(f, prog)
             if ab:
@@ -51,6 +54,7 @@ json.dump({k: {fn: sorted(ns) for fn, ns in sorted(v.items())} for k, v in sorte
           open(os.path.join(facts.VERIF, 'engine', 'baseline_locals.json'), 'w'), indent=0)
 json.dump(cmps, open(os.path.join(facts.VERIF, 'engine', 'baseline_comparisons.json'), 'w'), indent=0, sort_keys=True)
 json.dump(kargs, open(os.path.join(facts.VERIF, 'engine', 'baseline_constargs.json'), 'w'), indent=0, sort_keys=True)
+prof['#functions'] = sorted({f.name for f in prog.funcs.values()})
 json.dump(prof, open(os.path.join(facts.VERIF, 'engine', 'baseline_profiles.json'), 'w'), indent=0, sort_keys=True)
 json.dump(argb, open(os.path.join(facts.VERIF, 'engine', 'baseline_argbind.json'), 'w'), indent=0, sort_keys=True)
 path = os.path.join(facts.VERIF, 'engine', 'baseline_functions.json')
